@@ -11,6 +11,7 @@ package main
 import (
 	"bytes"
 	"compress/gzip"
+	"context"
 	"encoding/json"
 	"flag"
 	"fmt"
@@ -28,6 +29,7 @@ import (
 	"github.com/rqlite/rqlite/v10/cluster"
 	"github.com/rqlite/rqlite/v10/command/proto"
 	"github.com/rqlite/rqlite/v10/db"
+	"github.com/rqlite/rqlite/v10/store"
 )
 
 func init() { register("backup-trace", backupTrace) }
@@ -294,6 +296,25 @@ func bkDoWrite(n *vNode, wr *bkWrite, pad string) {
 	}
 }
 
+// pausingWriter collects a backup and calls pause once, in the middle of it: after the first chunk
+// (binary) or after the first row of t_a has been written (sql).
+type pausingWriter struct {
+	buf     bytes.Buffer
+	sql     bool
+	paused  bool
+	pause   func()
+	snapErr string
+}
+
+func (p *pausingWriter) Write(b []byte) (int, error) {
+	p.buf.Write(b)
+	if !p.paused && (!p.sql || bytes.HasPrefix(b, []byte(`INSERT INTO "t_a"`))) {
+		p.paused = true
+		p.pause()
+	}
+	return len(b), nil
+}
+
 // ---------------------------------------------------------------- main
 
 type bkStats struct {
@@ -310,6 +331,7 @@ type bkStats struct {
 	ElapsedC, ElapsedB               float64
 	DistinctStates, BackupsWithMoves int
 	Rounds                           int
+	Witnesses, WitnessPaused         int
 }
 
 func backupTrace(args []string) error {
@@ -334,7 +356,11 @@ func backupTrace(args []string) error {
 	}
 	st := &bkStats{ByVia: map[string]int{}, CutOutcomes: map[string]int{}, StreamBytes: map[string]int64{}}
 	rng := newRand(21)
-	c, err := newCluster(vClusterOpts{N: 3, Base: filepath.Join(*base, "cl")})
+	os.RemoveAll(filepath.Join(*base, "cl")) // a repeated run starts from nothing
+	c, err := newCluster(vClusterOpts{N: 3, Base: filepath.Join(*base, "cl"), Configure: func(s *store.Store) {
+		// the machine is shared: generous Raft timing keeps the roles where they are
+		s.HeartbeatTimeout, s.ElectionTimeout, s.LeaderLeaseTimeout = 2*time.Second, 2*time.Second, 2*time.Second
+	}})
 	if err != nil {
 		return err
 	}
@@ -445,6 +471,8 @@ func backupTrace(args []string) error {
 		moved      bool
 		bytes      int
 		conc       bool
+		paused     bool
+		snapErr    string
 	}
 	var recs []bkRec
 	var rmu sync.Mutex
@@ -510,6 +538,63 @@ func backupTrace(args []string) error {
 		}
 		return nil
 	}
+	// Witness of the negative controls GateDuringFileCopy / DumpInOneReadTxn: Store.Backup on the leader
+	// writes into a destination that, at a chosen point in the middle of the copy (binary: after the first
+	// chunk of the main file; sql: after the rows of t_a), runs acknowledged transfers and asks the store
+	// for a snapshot (a checkpoint into the main file) before it lets the copy go on.
+	doWitness := func(format string) error {
+		ld := c.Leader(10 * time.Second)
+		if ld == nil {
+			return fmt.Errorf("no leader")
+		}
+		br := &proto.BackupRequest{Format: proto.BackupRequest_BACKUP_REQUEST_FORMAT_BINARY, Leader: true}
+		if format == "sql" {
+			br.Format = proto.BackupRequest_BACKUP_REQUEST_FORMAT_SQL
+		}
+		pw := &pausingWriter{sql: format == "sql"}
+		pw.pause = func() {
+			for i := 0; i < 3; i++ {
+				wr := &bkWrite{K: nextK.Add(1), W: 77, D: int64(1 + i), X: 1 + i%bkRowsA, Y: 1 + i%bkRowsZ}
+				bkDoWrite(ld, wr, pad)
+				wmu.Lock()
+				writes = append(writes, wr)
+				wmu.Unlock()
+			}
+			if err := ld.Store.Snapshot(0); err != nil {
+				pw.snapErr = err.Error()
+			}
+		}
+		start := ld.Store.DBAppliedIndex()
+		tb := time.Now()
+		err := ld.Store.Backup(context.Background(), br, pw)
+		ms := time.Since(tb).Milliseconds()
+		end, _ := ld.Store.CommitIndex()
+		ld2 := c.Leader(10 * time.Second)
+		moved := ld2 == nil || ld2.ID != ld.ID || !ld.Store.IsLeader()
+		rec := bkRec{c: bkCombo{Fmt: format, Via: "leader"}, start: start, end: end, ms: ms, moved: moved, bytes: pw.buf.Len(),
+			paused: pw.paused, snapErr: pw.snapErr, p: bkProj{NA: -1, NZ: -1, NM: -1}}
+		if err == nil {
+			rec.r = bkResp{Status: 200, Clean: true}
+			p, rerr := bkRestore(restoreDir, pw.buf.Bytes(), format, false)
+			rec.p = p
+			if rerr != nil {
+				rec.rerr = rerr.Error()
+			}
+		} else {
+			rec.r = bkResp{Status: 500, Clean: true, Err: err.Error()}
+		}
+		rmu.Lock()
+		defer rmu.Unlock()
+		recs = append(recs, rec)
+		st.Witnesses++
+		if pw.paused {
+			st.WitnessPaused++
+		}
+		if err != nil && len(st.Notes) < 8 {
+			st.Notes = append(st.Notes, fmt.Sprintf("witness %s: %v", format, err))
+		}
+		return nil
+	}
 	combos := bkCombos()
 	// a second requester, so that backups also overlap each other (gate conflicts, failing pre-backup snapshots)
 	stop2 := make(chan struct{})
@@ -534,10 +619,21 @@ func backupTrace(args []string) error {
 		}
 		st.Rounds++
 		for _, ci := range rng.Perm(len(combos)) {
+			if *secs > 0 && round >= 2 && time.Since(t0) > 2*time.Duration(*secs)*time.Second {
+				break // a round that crawls (starved machine) is cut short
+			}
 			if berr = doBackup(combos[ci], rng, false); berr != nil {
 				break
 			}
 		}
+		for _, f := range []string{"binary", "sql"} {
+			if berr == nil {
+				berr = doWitness(f)
+			}
+		}
+		rmu.Lock()
+		fmt.Fprintf(os.Stderr, "backup-trace: round %d done after %.0fs: %d backups, %d writes issued\n", round+1, time.Since(t0).Seconds(), st.Backups, nextK.Load())
+		rmu.Unlock()
 	}
 	close(stop2)
 	wg2.Wait()
@@ -652,7 +748,7 @@ func backupTrace(args []string) error {
 		}
 		w.Write(map[string]any{"ev": "bk", "op": i + 1, "fmt": rec.c.Fmt, "vacuum": rec.c.Vacuum, "compress": rec.c.Compress, "via": rec.c.Via,
 			"start": rec.start, "end": rec.end, "status": rec.r.Status, "clean": rec.r.Clean, "err": rec.r.Err,
-			"restored": ok && rec.rerr == "", "rerr": rec.rerr, "bytes": rec.bytes, "ms": rec.ms, "moved": rec.moved, "conc": rec.conc,
+			"restored": ok && rec.rerr == "", "rerr": rec.rerr, "bytes": rec.bytes, "ms": rec.ms, "moved": rec.moved, "conc": rec.conc, "paused": rec.paused, "snaperr": rec.snapErr,
 			"na": rec.p.NA, "nz": rec.p.NZ, "nm": rec.p.NM, "sa": rec.p.SA, "sz": rec.p.SZ, "sk": rec.p.SK, "sd": rec.p.SD, "nobj": rec.p.NObj})
 	}
 	st.DistinctStates = len(distinct)
@@ -671,12 +767,32 @@ func backupTrace(args []string) error {
 // (format, compress), learn the length of the leader->follower byte stream, then repeat the request
 // with that stream cut after p bytes (FIN and RST) for the chosen positions p < length.
 func bkPhaseB(c *vCluster, w *ndWriter, st *bkStats, rng *rand.Rand, ncuts int, restoreDir, fwdTimeout string) (uint64, error) {
-	l := c.Leader(10 * time.Second)
-	fl := c.Followers()
-	if l == nil || len(fl) == 0 {
-		return 0, fmt.Errorf("no leader / follower")
+	var l, f *vNode
+	// roles can move on a loaded machine: (re)read them, and let a new leader settle
+	roles := func() error {
+		for i := 0; i < 50; i++ {
+			l = c.Leader(10 * time.Second)
+			fl := c.Followers()
+			if l != nil && len(fl) > 0 {
+				f = fl[0]
+				if la, _ := f.Store.LeaderAddr(); la == l.Addr {
+					return nil
+				}
+			}
+			time.Sleep(200 * time.Millisecond)
+		}
+		return fmt.Errorf("no stable leader / follower")
 	}
-	f := fl[0]
+	stable := func() bool {
+		if l == nil || f == nil || !l.Store.IsLeader() {
+			return false
+		}
+		la, _ := f.Store.LeaderAddr()
+		return la == l.Addr
+	}
+	if err := roles(); err != nil {
+		return 0, err
+	}
 	// a few rows so that every table has content
 	for i := 0; i < 12; i++ {
 		wr := &bkWrite{K: int64(-1 - i), W: 99, D: int64(1 + i%5), X: 1 + i%bkRowsA, Y: 1 + i%bkRowsZ}
@@ -701,16 +817,35 @@ func bkPhaseB(c *vCluster, w *ndWriter, st *bkStats, rng *rand.Rand, ncuts int, 
 	for _, v := range []variant{{"binary", false}, {"binary", true}, {"sql", false}, {"sql", true}} {
 		cb := bkCombo{Fmt: v.fmt, Compress: v.compress, Via: "follower"}
 		q := cb.query(fwdTimeout)
-		// reference: uncut, counted
-		obs := &vcut{from: f.ID, to: l.ID, hdr: cluster.MuxClusterHeader, after: -1}
-		flush()
-		c.nw.cut.Store(obs)
-		tb := time.Now()
-		ref := bkGet(f, q)
-		refMs := time.Since(tb).Milliseconds()
-		c.nw.cut.Store(nil)
-		total, _, _ := obs.counts()
 		name := fmt.Sprintf("%s/compress=%v", v.fmt, v.compress)
+		// reference: uncut, counted
+		var ref bkResp
+		var total, refMs int64
+		takeRef := func() error {
+			for try := 0; ; try++ {
+				if err := roles(); err != nil {
+					return err
+				}
+				obs := &vcut{from: f.ID, to: l.ID, hdr: cluster.MuxClusterHeader, after: -1}
+				flush()
+				c.nw.cut.Store(obs)
+				tb := time.Now()
+				ref = bkGet(f, q)
+				refMs = time.Since(tb).Milliseconds()
+				c.nw.cut.Store(nil)
+				total, _, _ = obs.counts()
+				if ref.Status == 200 && total >= 16 && stable() {
+					return nil
+				}
+				if try >= 8 {
+					return fmt.Errorf("reference backup %s: stream of %d bytes (status %d %s %s)", name, total, ref.Status, ref.Err, strings.TrimSpace(string(ref.Body)))
+				}
+				time.Sleep(300 * time.Millisecond)
+			}
+		}
+		if err := takeRef(); err != nil {
+			return 0, err
+		}
 		st.StreamBytes[name] = total
 		refOK := ref.Status == 200 && ref.Clean
 		var refPlain []byte
@@ -731,9 +866,6 @@ func bkPhaseB(c *vCluster, w *ndWriter, st *bkStats, rng *rand.Rand, ncuts int, 
 		}
 		w.Write(map[string]any{"ev": "ref", "fmt": v.fmt, "compress": v.compress, "status": ref.Status, "clean": ref.Clean, "err": ref.Err,
 			"restored": refOK && refErr == "", "rerr": refErr, "bytes": len(ref.Body), "stream": total, "ms": refMs})
-		if total < 16 {
-			return 0, fmt.Errorf("reference backup %s: stream of %d bytes (status %d %s)", name, total, ref.Status, ref.Err)
-		}
 		// positions
 		var pos []int64
 		if ncuts == 0 || int64(ncuts) >= total {
@@ -761,17 +893,37 @@ func bkPhaseB(c *vCluster, w *ndWriter, st *bkStats, rng *rand.Rand, ncuts int, 
 		}
 		for _, kind := range []string{"fin", "rst"} {
 			for _, p := range pos {
-				ct := &vcut{from: f.ID, to: l.ID, hdr: cluster.MuxClusterHeader, after: p, rst: kind == "rst"}
-				flush()
-				c.nw.cut.Store(ct)
-				r := bkGet(f, q)
-				c.nw.cut.Store(nil)
-				rx, _, fired := ct.counts()
+				var ct *vcut
+				var r bkResp
+				var rx int64
+				var fired bool
+				for try := 0; try < 4; try++ {
+					if !stable() {
+						// leadership moved: settle, and make sure the stream is still the one the positions refer to
+						t0 := total
+						if err := takeRef(); err != nil {
+							return 0, err
+						}
+						if total != t0 {
+							return 0, fmt.Errorf("%s: the stream changed from %d to %d bytes after a leader change", name, t0, total)
+						}
+					}
+					ct = &vcut{from: f.ID, to: l.ID, hdr: cluster.MuxClusterHeader, after: p, rst: kind == "rst"}
+					flush()
+					c.nw.cut.Store(ct)
+					r = bkGet(f, q)
+					c.nw.cut.Store(nil)
+					rx, _, fired = ct.counts()
+					if fired {
+						break
+					}
+					// the request ended before the stream reached p (roles moved, stale pooled connection): not a cut case
+					st.CutNotFired++
+					time.Sleep(100 * time.Millisecond)
+				}
 				st.Cuts++
 				if fired {
 					st.CutFired++
-				} else {
-					st.CutNotFired++
 				}
 				success := r.Status == 200 && r.Clean
 				equal := success && bytes.Equal(r.Body, ref.Body)
